@@ -25,7 +25,7 @@ pub fn cfg() -> AspCfg {
     AspCfg {
         preds: vec![("p".into(), 1), ("q".into(), 1), ("r".into(), 2), ("s".into(), 0), ("p".into(), 2)],
         // names that collide with the translator's fresh variables
-        vars: vec!["X".into(), "Y".into(), "I".into(), "J".into(), "K".into(), "Q".into(), "R".into(), "Z".into(), "Z1".into(), "V1".into()],
+        vars: vec!["X".into(), "Y".into(), "I".into(), "J".into(), "K".into(), "Q".into(), "R".into(), "Z".into(), "Z1".into(), "V1".into(), "V".into(), "V2".into()],
         syms: vec!["a".into(), "b".into()],
         num_lo: -3,
         num_hi: 4,
